@@ -22,7 +22,7 @@ import itertools
 import numpy as np
 import odl
 
-from .. import sanitize, trace, util
+from .. import cover, sanitize, trace, util
 from .c09 import WMat
 
 SHARDS = {'quick': 8, 'thorough': 16}
@@ -165,6 +165,30 @@ def run_linear(ctx, idx0):
                         ctx.ev('monotone')
                         if trace.nonincreasing(rs) is not None:
                             ctx.violation('landweber', cfg + ';omega=default;start=' + direction, 'monotone:residual-increased', at=trace.nonincreasing(rs))
+                    # an operator that is its own adjoint *object* takes the plain power iteration (odd iteration counts allowed):
+                    # symmetric matrices on the (constant-weighted) domain - definite, indefinite with eigenvalues +-lambda, rank one
+                    for skind in ('psd', 'indefinite', 'plus-minus', 'rank-one'):
+                        Bm = rng.normal(size=(n, n))
+                        if skind == 'psd':
+                            Sm = Bm @ Bm.T
+                        elif skind == 'indefinite':
+                            Sm = Bm + Bm.T
+                        elif skind == 'plus-minus':
+                            Q_, _r = np.linalg.qr(Bm)
+                            Sm = Q_ @ np.diag([2.0, -2.0] + [0.3] * (n - 2))[:n, :n] @ Q_.T if n >= 2 else Bm + Bm.T
+                        else:
+                            Sm = np.outer(Bm[0], Bm[0])
+                        Sop = SelfAdjointMat(Sm, X)
+                        true = float(np.abs(np.linalg.eigvalsh((Sm + Sm.T) / 2)).max())
+                        for mi in (1, 3, 10, 101):
+                            np.random.seed(idx + mi)
+                            ctx.ev('opnorm')
+                            try:
+                                est = odl.power_method_opnorm(Sop, maxiter=mi)
+                            except ValueError:
+                                continue
+                            if est > true * (1 + 1e-9):
+                                ctx.violation('power_method_opnorm', cfg + ';self-adjoint-object;' + skind, 'opnorm-exceeds-true-norm', est=float(est), true=true, maxiter=mi)
                     # documented: maxiter=None iterates until the stopping rule fires
                     np.random.seed(idx + 11)
                     ctx.ev('opnorm')
@@ -599,6 +623,48 @@ def run_overiteration(ctx):
                 ctx.violation('conjugate_gradient', cfg, 'progress', rel=float(np.sqrt(en[-1] / max(en[0], 1e-300))), n=n, niter=niter)
 
 
+def run_exact_start(ctx):
+    """Started at an exact solution (integer data, residual exactly zero) the Krylov solvers have nothing to reduce: the
+    iterate stays put, stays finite, and no callback reports a step that was not taken."""
+    rng = ctx.rng('exact-start')
+    for rep in range(ctx.reps(20, 100)):
+        n = int(rng.integers(2, 6))
+        X = odl.rn(n)
+        x0 = rng.integers(-3, 4, size=n).astype(float)
+        B = rng.integers(-3, 4, size=(n, n)).astype(float)
+        Q = B.T @ B + np.eye(n)
+        M = rng.integers(-3, 4, size=(n + int(rng.integers(0, 3)), n)).astype(float)
+        for name, A, solver in (('conjugate_gradient', WMat(Q, X, X), S.conjugate_gradient),
+                                ('conjugate_gradient_normal', WMat(M, X, odl.rn(M.shape[0])), S.conjugate_gradient_normal)):
+            ctx.case('exact-start;' + name, rep)
+            ctx.ev('monotone')
+            r = trace.Recorder()
+            x = X.element(x0)
+            try:
+                solver(A, x, A(X.element(x0)), 7, callback=r)
+            except Exception as e:
+                ctx.violation(name, 'start=exact-solution', 'raises:' + type(e).__name__, message=str(e)[:200])
+                continue
+            xa = np.asarray(x)
+            if not np.all(np.isfinite(xa)):
+                ctx.violation(name, 'start=exact-solution', 'not-finite')
+            elif not np.array_equal(xa, x0):
+                ctx.violation(name, 'start=exact-solution', 'monotone:left-the-solution', maxdiff=float(np.abs(xa - x0).max()))
+            if any(not np.array_equal(it, x0) for it in r.iterates):
+                ctx.violation(name, 'start=exact-solution', 'callback-saw-another-point')
+
+
+class SelfAdjointMat(WMat):
+    """Symmetric matrix on a constant-weighted space: self-adjoint, and says so by returning itself."""
+
+    def __init__(self, M, dom):
+        super(SelfAdjointMat, self).__init__((np.asarray(M) + np.asarray(M).T) / 2, dom, dom)
+
+    @property
+    def adjoint(self):
+        return self
+
+
 def run(ctx):
     ctx.note('rule', 'one case = one seeded problem instance (solver family x plain / constant-weighted space x conditioning class '
                      'x planted problem kind x number of operator blocks x step rule x start point); conditioning classes, '
@@ -607,6 +673,13 @@ def run(ctx):
     ctx.note('assumptions', ['convergence is restated as bounded progress on kappa <= 5 problems (thresholds leave >= 3 orders of '
                              'margin on the unchanged tree)', 'harness operator WMat has an exact adjoint in weighted spaces',
                              'NumPy SVD / lstsq are the reference for norms and least-squares solutions'])
+    import odl.solvers.iterative.iterative as _it, odl.solvers.smooth.gradient as _gr, odl.solvers.smooth.nonlinear_cg as _ncg, \
+        odl.solvers.smooth.newton as _nw, odl.solvers.nonsmooth.primal_dual_hybrid_gradient as _pd, odl.solvers.nonsmooth.douglas_rachford as _dr, \
+        odl.solvers.nonsmooth.forward_backward as _fb, odl.solvers.nonsmooth.proximal_gradient_solvers as _pg, odl.solvers.nonsmooth.admm as _ad, \
+        odl.solvers.util.steplen as _sl, odl.operator.oputils as _ou
+    cov = cover.module_cover([_it, _gr, _pd, _dr, _fb, _pg, _ad, _sl])
+    cov.add(_ou.power_method_opnorm, 'power_method_opnorm')
+    cov.arm()
     sanitize.poison_on()
     idx = run_linear(ctx, 0)
     idx = run_planted(ctx, idx)
@@ -614,5 +687,8 @@ def run(ctx):
     run_overiteration(ctx)
     if ctx.shard == 0:
         run_stepsizes(ctx)
+    if ctx.shard == ctx.nshards - 1:
+        run_exact_start(ctx)
+    cover.report_to(ctx, cov)
     for m in ('monotone', 'bounded-progress', 'kkt', 'fixed-point', 'opnorm'):
         ctx.ev(m, 0)
